@@ -61,7 +61,7 @@ pub fn csr_space(conformant_only: bool) -> Space<CsrCase> {
         }
     }
     dims.push(d);
-    Space { base: CsrCase { st: CertState::default(), attrs: vec![] }, dims }
+    Space { base: CsrCase { st: CertState { serial: None, ..crate::glue::base_cert_state() }, attrs: vec![] }, dims }
 }
 
 fn judge(prop: &str, known: &[KnownEntry], c: &CsrCase, key: &rcgen::KeyPair, key_pub: &KeyPub) -> Outcome {
